@@ -262,3 +262,24 @@ K('C18', 'li-grad-drops-c', [(LI, "                    grad = c*(Q.T @ diff)", "
 K('C18', 'li-setup-no-break', [(LI, "                    self.groups[cl].append(m)\n                    break", "                    self.groups[cl].append(m)")], 'exactly-once')
 K('C19', 'pi-loss-grad-inconsistent', [(PI, "            diff = c*(Q @ x - y)", "            diff = Q @ x - y"), (PI, "                loss += 0.5*(diff @ diff)", "                loss += 0.5*c*(diff @ diff)")], None)
 K('C19', 'pi-weight-grad-wrong-clique', [(PI, "                idx = est.project(cl).df.values", "                idx = est.df.values[:, :len(cl)]")], 'gradient-form')
+
+# ------------------------------------------------------------------ C13
+JT = 'src/mbi/junction_tree.py'
+K('C13', 'bp-no-copy', [(GM, "        beliefs = { cl : potentials[cl].copy() for cl in potentials }", "        beliefs = { cl : potentials[cl] for cl in potentials }")], 'A1-no-foreign-mutation')
+K('C13', 'warm-alias-old-potentials', [(INF, "        model.potentials = CliqueVector.zeros(self.domain, model.cliques)\n        model.potentials.combine(self.structural_zeros)\n        if self.warm_start and hasattr(self, 'model'):\n            model.potentials.combine(self.model.potentials)",
+                                            "        model.potentials = CliqueVector.zeros(self.domain, model.cliques)\n        if self.warm_start and hasattr(self, 'model'):\n            model.potentials = self.model.potentials\n        model.potentials.combine(self.structural_zeros)")], 'A1-no-foreign-mutation')
+K('C13', 'measurements-sorted-in-place', [(INF, "        ans = []\n        for Q, y, noise, proj in measurements:", "        ans = []\n        measurements.sort(key=lambda m: len(m[3]))\n        for Q, y, noise, proj in measurements:")], 'A1-no-foreign-mutation')
+K('C13', 'groups-only-in-init', [(INF, "        self.groups = defaultdict(lambda: [])\n", ""), (INF, "        self.history = []\n", "        self.history = []\n        self.groups = defaultdict(lambda: [])\n")], None)
+K('C13', 'iters-decremented', [(INF, "        model.potentials = theta\n        model.marginals = mu\n", "        model.potentials = theta\n        model.marginals = mu\n        self.iters -= 1\n")], 'A3-config-read-only')
+K('C13', 'setup-reuses-model', [(INF, "        model = GraphicalModel(self.domain,cliques,total,elimination_order=self.elim_order)\n",
+                                     "        if getattr(self, '_cliques', None) == cliques:\n            model = self.model\n            model.total = total\n        else:\n            model = GraphicalModel(self.domain,cliques,total,elimination_order=self.elim_order)\n        self._cliques = list(cliques)\n")], None)
+K('C13', 'warm-keeps-total', [(INF, "        if total is None:\n            # find the minimum variance estimate of the total given the measurements\n            variances = np.array([])",
+                                   "        if total is None and self.warm_start and hasattr(self, 'model'):\n            total = self.model.total\n        if total is None:\n            # find the minimum variance estimate of the total given the measurements\n            variances = np.array([])")], 'A2b-warm-start-use')
+K('C13', 'y-normalised-in-place', [(INF, "            assert np.isscalar(noise), 'noise must be a real value, given ' + str(noise)\n", "            assert np.isscalar(noise), 'noise must be a real value, given ' + str(noise)\n            y /= noise\n")], 'A1-no-foreign-mutation')
+K('C13', 'options-conditional-key', [(INF, "        options['callback'] = callback\n        if callback is None and self.log:", "        if callback is not None:\n            options['callback'] = callback\n        if callback is None and self.log:")], 'A4-mutable-default')
+K('C13', 'stochastic-default-order', [(JT, "            order = self._greedy_order(stochastic=False)[0]\n        elif", "            order = self._greedy_order(stochastic=True)[0]\n        elif")], 'A5-rng-guard')
+K('C13', 'ig-mutates-model-potentials', [(INF, "            theta = theta - a/c/total * g\n", "            theta.combine(-a/c/total * g)\n")], 'A1-no-foreign-mutation')
+K('C13', 'zeros-spec-popped', [(INF, "            fact = structural_zeros[cl]\n            self.structural_zeros[cl] = self.Factor.active(dom,fact)", "            fact = structural_zeros[cl]\n            fact.sort()\n            self.structural_zeros[cl] = self.Factor.active(dom,fact)")], 'A1-no-foreign-mutation')
+T('C13', 'options-copied', [(INF, "        measurements = self.fix_measurements(measurements)\n        options['callback'] = callback", "        measurements = self.fix_measurements(measurements)\n        options = dict(options)\n        options['callback'] = callback")])
+T('C13', 'bp-deepcopy', [(GM, "        beliefs = { cl : potentials[cl].copy() for cl in potentials }", "        beliefs = { cl : deepcopy(potentials[cl]) for cl in potentials }")])
+T('C13', 'md-inplace-on-fresh-theta', [(INF, "                theta = omega - alpha*dL\n", "                theta = omega - alpha*dL\n                theta.combine(CliqueVector({}))\n")])
